@@ -7,7 +7,6 @@ import (
 	"strconv"
 	"time"
 
-	"github.com/valyala/fastjson/fastfloat"
 
 	. "github.com/cube2222/octosql/execution"
 	"github.com/cube2222/octosql/execution/files"
@@ -69,7 +68,8 @@ func (d *DatasourceExecuting) Run(ctx ExecutionContext, produce ProduceFn, metaS
 			}
 
 			if octosql.Int.Is(d.fields[i].Type) == octosql.TypeRelationIs {
-				integer, err := fastfloat.ParseInt64(str)
+				// The same parser as the one the schema was inferred with, so that both accept the same cells.
+				integer, err := strconv.ParseInt(str, 10, 64)
 				if err == nil {
 					values[i] = octosql.NewInt(integer)
 					continue
